@@ -50,13 +50,16 @@ def gen_case(rng, tier, avoid):
                 op['kwargs']['element_limit'] = [max(w - 1, 1)] if w > 1 else [1, 1]
                 user = 'el_other'
             if rng.random() < 0.15:
-                op['kwargs']['cast_dtype'] = {'$dtype': gen.pick(rng, SAFE_CASTS[rc['dtype'][1:]])}
+                op['kwargs']['cast_dtype'] = gen.cast_literal(rng, gen.pick(rng, SAFE_CASTS[rc['dtype'][1:]]))
     shared = False
     if rng.random() < 0.2:
         # a second frame that shares the first channel
         c2 = spec.channel(lfi, 'EXTRA', gen.array_recipe(rng, rows, width=rng.choice([None, 2])))
         spec.frame(lfi, 'FR2', [chans[0], c2])
         shared = True
+    if rng.random() < 0.15:
+        # a channel that belongs to no frame (accepted with a warning outside the high-compatibility mode)
+        spec.channel(lfi, 'ORPHAN', gen.array_recipe(rng, rows, width=rng.choice([None, 3])))
     kind = gen.pick(rng, ['inline', 'inline', 'dict', 'struct', 'h5'])
     ops, data = spec.ops, None
     if kind != 'inline':
